@@ -133,7 +133,11 @@ static void setup (void)
   __CPROVER_assume (IN.delta[0] >= 1 && IN.delta[3] >= 1);
   OB0.flags = IN.dest[0] ? O_DESTRUCTED : 0; OB1.flags = IN.dest[1] ? O_DESTRUCTED : 0;
   OB0.ref = 10; OB1.ref = 10; OB0.name = "ob0"; OB1.name = "ob1";
+#ifdef MODE_L2R
+  call_list[X] = &E0;
+#else
   if (IN.nx >= 1) call_list[X] = &E0;
+#endif
   if (IN.nx >= 2) E0.next = &E1;
   if (IN.nx >= 3) E1.next = &E2;
   if (IN.ny >= 1) call_list[Y] = &E3;
@@ -158,7 +162,12 @@ static void callback_action (void)
   switch (IN.act)
     {
     case 0:
+#ifdef DELAY
+      __CPROVER_assume (IN.delay == (DELAY));
+      IN.delay = (DELAY);       /* concrete per run: keeps the target slot concrete (L1 covers all delays symbolically) */
+#else
       __CPROVER_assume (IN.delay >= -1 && IN.delay <= 2 * N + 2);
+#endif
       act_delay = IN.delay; fun.type = T_STRING; fun.subtype = 0; fun.u.string = name_new;
       cand[2] = (int) ((current_time + (IN.delay < 1 ? 1 : IN.delay)) & (N - 1));
       act_ret = new_call_out (&OB1, &fun, (time_t) IN.delay, 0, 0);
@@ -180,6 +189,13 @@ void harness (void)
 #ifdef ACT
   __CPROVER_assume (IN.act == ACT);
   IN.act = ACT;
+#endif
+#ifdef MODE_L2R
+  /* one second is swept and its first entry E0 (live owner OB0, due now) certainly fires: concrete, so that symex knows
+     the scripted callback runs exactly once (otherwise it explores it at every firing and exhausts the free list) */
+  __CPROVER_assume (IN.lag == 1 && IN.nx >= 1 && IN.delta[0] == 1 && IN.owner[0] == 0 && IN.dest[0] == 0);
+  IN.lag = 1; IN.delta[0] = 1; IN.owner[0] = 0; IN.dest[0] = 0;
+  if (IN.nx < 1) IN.nx = 1;
 #endif
   setup ();
 #ifdef MODE_L1
@@ -208,6 +224,9 @@ void harness (void)
     __CPROVER_assume (IN.lag >= 1);
 #ifdef MODE_L2R
     __CPROVER_assume (IN.lag == 1 && IN.nx >= 1 && IN.nx <= L2R_NX && IN.delta[0] == 1);
+#ifdef L2R_NY
+    __CPROVER_assume (IN.ny <= L2R_NY);
+#endif
     __CPROVER_assume (!(OBP (IN.owner[0])->flags & O_DESTRUCTED));
 #endif
     call_out ();
